@@ -28,6 +28,7 @@ SHAPES = ["plain", "nomsg", "nocode", "data-obj", "data-str", "data-num", "data-
 
 class ErrorPath(Suite):
     name = "error-path"
+    parallel = True
 
     def cases(self, ctx, budget):
         out = []
@@ -54,7 +55,7 @@ class ErrorPath(Suite):
                     ev = [[7, G.sym_event("N", k=k)], [300, err_event(code, shape, k)], [310, {"k": "resp", "id": "$ID", "p": {}}]]
                     out.append(G.place({"id": None, "helper": h, "D": 1024, "tie": ["events", "timers"][k % 2], "ev": ev}))
         rng = ctx.sub_rng("c07", budget)
-        n = 800 if budget == "quick" else 20000
+        n = 4000 if budget == "quick" else 80000
         for _ in range(n):
             c = G.seeded(rng, ["E", "E", "Ed", "En", "Ec", "R", "Q", "O", "Oe", "N", "G", "F", "B", "T"], cancel_p=0.05)
             for _, ev in c["ev"]:
@@ -70,11 +71,9 @@ class ErrorPath(Suite):
             self._reported = True
             self._undrivable = undrivable
         obs = [H.run_case(c) for c in cases]
-        self._last = {id(c): o for c, o in zip(cases, obs)}
         return obs
 
-    def model_line(self, case):
-        o = self._last.get(id(case))
+    def model_line(self, case, o=None):
         if o is None or o.get("harness_errors") or o.get("sent_id") is None:
             return None
         return H.model_line(case, o)
